@@ -54,7 +54,22 @@ func VH10a_close() {
 		p.SendMode = vt.SendBlock // the peer does not drain: senders can park
 		tps = append(tps, p)
 	}
+	// queue lengths left at their defaults, or set to 1 on the socket before anything else exists (contexts inherit)
+	small := verif.Choice("small-queues", 2) == 1
+	if small {
+		sock.SetOption(mangos.OptionReadQLen, 1)
+		sock.SetOption(mangos.OptionWriteQLen, 1)
+	}
 	ctx, cerr := sock.OpenContext()
+	if proto == "sub" || proto == "xsub" {
+		// two subscriptions, so that arrivals are kept and one subscription can be cancelled later
+		sock.SetOption(mangos.OptionSubscribe, []byte{})
+		sock.SetOption(mangos.OptionSubscribe, []byte("zz"))
+		if cerr == nil {
+			ctx.SetOption(mangos.OptionSubscribe, []byte{})
+			ctx.SetOption(mangos.OptionSubscribe, []byte("zz"))
+		}
+	}
 	// what is in progress when Close comes: nothing / deadlines armed (solver variables) / a request, survey or
 	// pending reply outstanding (retry and survey timers armed) / a dialer waiting to redial an absent peer
 	prep := verif.Choice("prep", 4)
@@ -96,9 +111,15 @@ func VH10a_close() {
 			_, e := sock.RecvMsg()
 			verif.Assert(e == nil, lab+"/prep-request-received")
 		default:
-			// a message waiting in the receive queue
+			// a message waiting in the receive queue (more than fit when the queues are short)
 			tps[0].Deliver([]byte{0, 0, 0, 0, 'w'})
 			verif.Quiesce()
+			if small {
+				tps[0].Deliver([]byte{0, 0, 0, 0, 'x'})
+				verif.Quiesce()
+				tps[0].Deliver([]byte{0, 0, 0, 0, 'y'})
+				verif.Quiesce()
+			}
 		}
 		verif.Reach("prep-outstanding")
 	case 3:
@@ -114,7 +135,32 @@ func VH10a_close() {
 		c.g = verif.Go(name, func() { c.msg, c.err = f() })
 		calls = append(calls, c)
 	}
-	what := verif.Choice("parked", 5)
+	what := verif.Choice("parked", 6)
+	var optCalls []*call
+	if what == 5 {
+		// option calls in flight (they normally return at once): a queue resize and a cancelled subscription
+		opt := func(name string, f func() error) {
+			c := &call{name: name}
+			c.g = verif.Go(name, func() { c.err = f() })
+			optCalls = append(optCalls, c)
+		}
+		if verif.Choice("option", 2) == 0 {
+			opt("resize", func() error { return sock.SetOption(mangos.OptionReadQLen, 2) })
+			if cerr == nil {
+				opt("ctx-resize", func() error { return ctx.SetOption(mangos.OptionReadQLen, 2) })
+			}
+		} else {
+			opt("unsubscribe", func() error { return sock.SetOption(mangos.OptionUnsubscribe, []byte("zz")) })
+			if cerr == nil {
+				opt("ctx-unsubscribe", func() error { return ctx.SetOption(mangos.OptionUnsubscribe, []byte("zz")) })
+			}
+		}
+		verif.Quiesce()
+		for _, c := range optCalls {
+			verif.Assert(c.g.Done(), lab+"/"+c.name+"-option-call-blocks")
+		}
+		verif.Reach("option-calls")
+	}
 	if what == 0 || what == 2 {
 		park("recv", func() (*mangos.Message, error) { return sock.RecvMsg() })
 	}
